@@ -244,7 +244,7 @@ impl Report {
         if o.timer_jumps > 0 {
             *self.probes.entry("timer_jump".into()).or_insert(0) += o.timer_jumps;
         }
-        if o.step_cap_hit {
+        if o.step_cap_hit && self.violation.is_none() {
             self.harness_error = Some("step cap hit".into());
         }
         self.schedule = o.schedule.clone();
